@@ -19,6 +19,14 @@ SPEC = os.path.join(VERIF, "spec")
 HARNESS = os.path.join(VERIF, "harness")
 OUT = os.path.join(VERIF, "out")
 EVID = os.path.join(VERIF, "evidence")
+# Evaluation of seeded changes only (bin/mutant.sh): KB_REPO names a scratch worktree of the repository
+# with a change applied; the harness is then built against it, and evidence / violation traces go to
+# KB_SCRATCH instead of /verif. The registered commands never set these.
+KB_REPO = os.environ.get("KB_REPO", "/repo")
+if os.environ.get("KB_REPO"):
+    _scr = os.environ.get("KB_SCRATCH") or ("/tmp/kbmut_%d" % os.getpid())
+    OUT = os.path.join(_scr, "out")
+    EVID = os.path.join(_scr, "evidence")
 NCPU = os.cpu_count() or 4
 
 GOENV = dict(os.environ, GOFLAGS="-mod=mod", GOPROXY="off", GOSUMDB="off", GOTOOLCHAIN="local", CGO_ENABLED="0")
@@ -69,11 +77,17 @@ def build_harness(work):
     t0 = time.time()
     binp = os.path.join(work.dir, "kbverif")
     # keep go.sum in step with the repository (offline: nothing can be fetched)
+    hdir = HARNESS
+    if KB_REPO != "/repo":
+        hdir = os.path.join(work.dir, "harness")
+        shutil.copytree(HARNESS, hdir)
+        gm = open(os.path.join(hdir, "go.mod")).read().replace("=> /repo", "=> " + KB_REPO)
+        open(os.path.join(hdir, "go.mod"), "w").write(gm)
     try:
-        shutil.copy("/repo/go.sum", os.path.join(HARNESS, "go.sum"))
+        shutil.copy(os.path.join(KB_REPO, "go.sum"), os.path.join(hdir, "go.sum"))
     except Exception:
         pass
-    rc, out = run(["go", "build", "-tags", "verif", "-o", binp, "./cmd/kbverif"], cwd=HARNESS, env=GOENV, timeout=900)
+    rc, out = run(["go", "build", "-tags", "verif", "-o", binp, "./cmd/kbverif"], cwd=hdir, env=GOENV, timeout=900)
     if rc != 0:
         raise Undecided("harness build failed (the repository does not compile with -tags verif?):\n" + out[-3000:])
     log("harness built in %.1fs" % (time.time() - t0))
